@@ -995,7 +995,7 @@ class Interp:
             o = SObj(a.cls, {f: self.ite(c, a.fields[f], b.fields[f], node) for f in a.fields}, a.declname)
             o.tag = "ite"
             return o
-        if isinstance(a, SDict) and isinstance(b, SDict) and list(a.d) == list(b.d):
+        if isinstance(a, SDict) and isinstance(b, SDict) and set(a.d) == set(b.d):
             return SDict({k: self.ite(c, a.d[k], b.d[k], node) for k in a.d})
         if isinstance(a, SList) and isinstance(b, SList) and len(a.items) == len(b.items):
             return SList([self.ite(c, x, y, node) for x, y in zip(a.items, b.items)])
@@ -1165,6 +1165,9 @@ class Interp:
                     return v
                 if fac is not None:
                     return self.call(fac, [], {}, node)
+                if (self.in_spec or self.nofork) and c.d:
+                    # total reading inside specifications: an unspecified value shaped like the other entries
+                    return self.havoc_like_spec(next(iter(c.d.values())))
                 raise PyRaise("KeyError", node)
             # symbolic key into a concrete-key dict: compare with every key
             if isinstance(k, Sym):
@@ -1569,7 +1572,12 @@ class Interp:
         if isinstance(t, S.Obj):
             return self.fresh_obj(t.name, name, bounded)
         if isinstance(t, S.Rec):
-            return SDict({k: self.fresh(ft, "%s[%s]" % (name, k), bounded) for k, ft in t.fields.items()})
+            d = {}
+            for k, ft in t.fields.items():
+                if k in getattr(t, "optional_keys", ()) and self.choose(2) == 1:
+                    continue  # this optional key is absent on this path
+                d[k] = self.fresh(ft, "%s[%s]" % (name, k), bounded)
+            return SDict(d)
         if isinstance(t, S.List):
             n = t.concrete_len
             if n is None and bounded is not None:
@@ -1654,6 +1662,7 @@ class Interp:
 
             def mkobj(i):
                 o = SObj(ci, {f: g(i) for f, g in gs.items()}, t.name)
+                o.from_decl = True
                 return o
 
             return mkobj
@@ -1690,6 +1699,7 @@ class Interp:
         decl = S.CLASSES[declname]
         ci = self.classinfo_for_decl(decl)
         o = SObj(ci, {}, declname)
+        o.from_decl = True
         for f, ft in decl.fields.items():
             v = self.fresh(ft, "%s.%s" % (name, f), bounded)
             if isinstance(ft, S.List) and ft.sorted_key is not None:
